@@ -343,6 +343,31 @@ theorem C18_error_reply_first {cs : List RChild} {i : Nat} (h : findError cs = s
       subst h
       exact ⟨⟨d, by simp, hd⟩, by intro j hj; omega⟩
 
+/-- Leaving returns when an error reply arrives — on a session of any stanza namespace, whatever
+the room echoes in front of the error: the waiting `Leave` ends with the room's stanza error (and,
+known finding, the code ends the membership) -/
+theorem C18_refused_leave_any_namespace {s} {c : Nat} (ns : String) (pre post : List RChild)
+    (hpre : ∀ d ∈ pre, d.isError = false) (hw : s.lpc c = .waiting) :
+    ∃ a s', replyAct true c (pre ++ RChild.elem ns "error" :: post) = some a ∧ step s a = some s' ∧
+      s'.lpc c = .idle ∧ s'.lastLeave c = some (.err .stanzaErr) ∧ s'.joined c = false := by
+  refine ⟨.leaveError c, ?_⟩
+  simp [replyAct, C18_error_reply_found ns pre post hpre, step, hw, upd]
+
+/-- … and a pending `Join` takes the room's error: it will return the stanza error -/
+theorem C18_refused_join_any_namespace {s} {c : Nat} (ns : String) (pre post : List RChild)
+    (hpre : ∀ d ∈ pre, d.isError = false) (hp : s.jpc c = .pending) :
+    ∃ a s' s'', replyAct false c (pre ++ RChild.elem ns "error" :: post) = some a ∧ step s a = some s' ∧
+      step s' (.joinCleanup c) = some s'' ∧ s''.jpc c = .idle ∧ s''.lastJoin c = some (.err .stanzaErr) := by
+  refine ⟨.joinError c, ?_⟩
+  simp [replyAct, C18_error_reply_found ns pre post hpre, step, hp, upd]
+
+/-- a reply without an error element is no refusal (nothing of the bookkeeping moves on it) -/
+theorem C18_reply_without_error_is_no_refusal (leave : Bool) (c : Nat) (cs : List RChild)
+    (h : ∀ d ∈ cs, d.isError = false) : replyAct leave c cs = none := by
+  simp [replyAct, (C18_error_reply_only_error cs).mpr h]
+
+example : replyAct true 0 [.elem nsMuc "x", .text, .elem nsAccept "error"] = some (.leaveError 0) := by decide
+
 -- non-vacuity: a component session's reply with the echoed muc payload and white space first
 example : findError [.elem nsMuc "x", .text, .elem nsAccept "error"] = some 2 := by decide
 example : findError [.elem nsMuc "x", .elem "urn:verif" "errors", .text] = none := by decide
